@@ -72,7 +72,9 @@ def main():
     # a runaway generator / oracle must fail this check, not take the machine down
     try:
         import resource
-        resource.setrlimit(resource.RLIMIT_AS, (24 << 30, 24 << 30))
+        # soft limit only: build tools started through C.sh lift it again (see common._no_as_limit)
+        _, hard = resource.getrlimit(resource.RLIMIT_AS)
+        resource.setrlimit(resource.RLIMIT_AS, (24 << 30, hard))
     except Exception:
         pass
     args = [a for a in sys.argv[1:]]
